@@ -1,0 +1,17 @@
+//go:build verif
+
+package cast5
+
+// Contracts for govc (/verif). Comments only. C12 (part): key length acceptance.
+
+//@ func (*Cipher).keySchedule
+//@ trusted
+//@ note CAST5 key schedule (S-box lookups, 32-bit rotations): not verified
+//@ nonnil c
+//@ requires len(in) >= 16
+//@ modifies c.*
+
+//@ func NewCipher
+//@ props C12
+//@ ensures iff(err == nil, len(key) == 16) && iff(c != nil, err == nil)
+//@ canary ensures err != nil
